@@ -327,7 +327,7 @@ func TestVerif_C13(t *testing.T) {
 			nbad := 0
 			for i, f := range frames {
 				if snapAt[i] {
-					rig.mp.StartSnapshot = true
+					rig.mp.RequestSnapshot()
 				}
 				if f.hasInteriorZero(edge) != f.Bad {
 					panic("harness: generator bad flag disagrees with independent decode")
